@@ -255,7 +255,10 @@ class Checker:
                     if isinstance(m, ast.Call) and isinstance(m.func, ast.Attribute) and m.func.attr == 'cross' and len(m.args) == 2:
                         a0, a1 = norm_text(m.args[0]), norm_text(m.args[1])
                         n0 = {x.id for x in ast.walk(m.args[0]) if isinstance(x, ast.Name)} | {x.attr for x in ast.walk(m.args[0]) if isinstance(x, ast.Attribute)}
-                        if not (pos_p in n0 and force_p not in n0 and a1 == force_p):
+                        # the lever arm is the application point: the parameter, the stored field, or the default pose on the
+                        # path where the parameter is None
+                        is_default = 'tm()' in a0 and (pth.facts.get('%sisNone' % pos_p) is True or pth.facts.get('%s==None' % pos_p) is True)
+                        if not ((pos_p in n0 or is_default) and force_p not in n0 and a1 == force_p):
                             ok = False
                             msgs.append('moment is cross(%s, %s); must be cross(position, force)' % (a0, a1))
                     else:
